@@ -782,13 +782,41 @@ func (ig Integration) Filter() glf.Filter {
 	for i := range ig.Block {
 		fields = append(fields, ig.Block[i].Name)
 
-		if ig.Block[i].Name == "log_addr" && len(ig.Block[i].Filter.Arg) > 0 {
+		if ig.Block[i].Name == "log_addr" && len(ig.Block[i].Filter.Arg) > 0 && ig.addrPushdown(ig.Block[i].Filter) {
 			for _, arg := range ig.Block[i].Filter.Arg {
 				addrs = append(addrs, eth.EncodeHex(eth.DecodeHex(arg)))
 			}
 		}
 	}
 	return *glf.New(fields, addrs, [][]string{{eth.EncodeHex(ig.sighash)}})
+}
+
+// Reports whether the log_addr filter f may be sent to the source
+// as the eth_getLogs address restriction. The restriction must never
+// exclude a log that the integration's filters accept: the filter has
+// to select exactly the listed addresses and, unless it is the only
+// filter, the results have to be combined with and.
+func (ig Integration) addrPushdown(f Filter) bool {
+	if f.Op != "contains" && f.Op != "eq" {
+		return false
+	}
+	for _, arg := range f.Arg {
+		if len(eth.DecodeHex(arg)) != 20 {
+			return false
+		}
+	}
+	var nfilters int
+	for _, inp := range ig.Event.Selected() {
+		if len(inp.Filter.Arg) > 0 || len(inp.Filter.Ref.Integration) > 0 {
+			nfilters++
+		}
+	}
+	for _, bd := range ig.Block {
+		if len(bd.Filter.Arg) > 0 || len(bd.Filter.Ref.Integration) > 0 {
+			nfilters++
+		}
+	}
+	return nfilters == 1 || ig.filterAGG == "and"
 }
 
 func (ig Integration) Delete(ctx context.Context, pg wpg.Conn, n uint64) error {
